@@ -326,6 +326,15 @@ func (s *c19State) roundTrip(h *c19Handle) {
 		back := sc.Packages[0].Versions[0].Attr
 		if !back.Equal(h.va) || uni.AttrString(back) != uni.AttrString(h.va) {
 			s.bad("AttrSet:text-roundtrip", "h%d %s written as %q parses back as %s", h.id, uni.AttrString(h.va), text, uni.AttrString(back))
+		} else {
+			// What a parser returns belongs to its caller: scribble on it, then
+			// parse the same text again - it must still denote the same set.
+			s.scribbleVA(&back, h)
+			if sc, err := schema.New(text, resolve.NPM); err != nil || len(sc.Packages) != 1 || len(sc.Packages[0].Versions) != 1 {
+				s.bad("AttrSet:text-reparse", "schema.New failed on %q the second time: %v", text, err)
+			} else if again := sc.Packages[0].Versions[0].Attr; !again.Equal(h.va) || uni.AttrString(again) != uni.AttrString(h.va) {
+				s.bad("AttrSet:text-reparse", "h%d %s written as %q parsed back correctly once; after the caller changed the set it got, the same text parses as %s", h.id, uni.AttrString(h.va), text, uni.AttrString(again))
+			}
 		}
 		// The repository's own writer for the inline form (versiontest.String,
 		// "compatible with ParseString: for any given dt,
@@ -347,6 +356,16 @@ func (s *c19State) roundTrip(h *c19Handle) {
 			s.bad("AttrSet:repo-writer-parse", "h%d %s: versiontest.String wrote %q, which versiontest.ParseString rejects: %v", h.id, uni.AttrString(h.va), own, err)
 		} else if !back2.Equal(h.va) || uni.AttrString(back2) != uni.AttrString(h.va) {
 			s.bad("AttrSet:repo-writer-roundtrip", "h%d %s: versiontest.String wrote %q, which parses back as %s", h.id, uni.AttrString(h.va), own, uni.AttrString(back2))
+		} else {
+			s.scribbleVA(&back2, h)
+			if again, err := verifbridge.VersionAttrParse(own); err != nil || !again.Equal(h.va) || uni.AttrString(again) != uni.AttrString(h.va) {
+				s.bad("AttrSet:repo-writer-reparse", "h%d %s: %q parsed back correctly once; after the caller changed the set it got, the same text parses as %s (%v)", h.id, uni.AttrString(h.va), own, uni.AttrString(again), err)
+			} else if s.step%4 == 2 {
+				// a set born in the parser takes the handle's place: the rest of
+				// the history (clones, changes, comparisons) acts on it
+				h.va = again
+				probe(s.res, "parsed_values_adopted_as_handles", 1)
+			}
 		}
 		// and as the prefix of a version line of a universe
 		text2 := "pkg\n\t"
@@ -374,6 +393,13 @@ func (s *c19State) roundTrip(h *c19Handle) {
 	back := sc.Packages[0].Versions[0].Requirements[0]
 	if back.Name != "target" || !back.Type.Equal(h.dt) || uni.TypeString(back.Type) != uni.TypeString(h.dt) {
 		s.bad("Type:text-roundtrip", "h%d %s written as %q parses back as %s@%s %s", h.id, uni.TypeString(h.dt), text, back.Name, back.Version, uni.TypeString(back.Type))
+	} else {
+		s.scribbleDT(&back.Type, h)
+		if sc, err := schema.New(text, resolve.NPM); err != nil || len(sc.Packages) != 1 || len(sc.Packages[0].Versions) != 1 || len(sc.Packages[0].Versions[0].Requirements) != 1 {
+			s.bad("Type:text-reparse", "schema.New failed on %q the second time: %v", text, err)
+		} else if again := sc.Packages[0].Versions[0].Requirements[0].Type; !again.Equal(h.dt) || uni.TypeString(again) != uni.TypeString(h.dt) {
+			s.bad("Type:text-reparse", "h%d %s written as %q parsed back correctly once; after the caller changed the type it got, the same text parses as %s", h.id, uni.TypeString(h.dt), text, uni.TypeString(again))
+		}
 	}
 	// (b) as the type of a graph edge
 	gt := "root 1.0.0\n\t"
@@ -394,7 +420,36 @@ func (s *c19State) roundTrip(h *c19Handle) {
 	}
 	if et := g.Edges[0].Type; !et.Equal(h.dt) || uni.TypeString(et) != uni.TypeString(h.dt) {
 		s.bad("Type:graph-text-roundtrip", "h%d %s written as %q parses back as %s", h.id, uni.TypeString(h.dt), gt, uni.TypeString(et))
+	} else {
+		s.scribbleDT(&g.Edges[0].Type, h)
+		if g2, err := schema.ParseResolve(gt, resolve.NPM); err != nil || len(g2.Edges) != 1 {
+			s.bad("Type:graph-text-reparse", "schema.ParseResolve failed on %q the second time: %v", gt, err)
+		} else if again := g2.Edges[0].Type; !again.Equal(h.dt) || uni.TypeString(again) != uni.TypeString(h.dt) {
+			s.bad("Type:graph-text-reparse", "h%d %s written as %q parsed back correctly once; after the caller changed the type it got, the same text parses as %s", h.id, uni.TypeString(h.dt), gt, uni.TypeString(again))
+		} else if s.step%4 == 2 {
+			h.dt = again
+			probe(s.res, "parsed_values_adopted_as_handles", 1)
+		}
 	}
+}
+
+// scribbleVA / scribbleDT change a set the parser handed out (every valued key
+// it holds gets another value, one more key is set): the caller's right, and
+// of no consequence for anybody else.
+func (s *c19State) scribbleVA(a *version.AttrSet, h *c19Handle) {
+	for _, k := range sortedValKeys(h.vals) {
+		a.SetAttr(version.AttrKey(k), "scribbled over")
+	}
+	a.SetAttr(version.Tags, "scribbled")
+	probe(s.res, "parsed_values_changed_before_reparsing", 1)
+}
+
+func (s *c19State) scribbleDT(d *dep.Type, h *c19Handle) {
+	for _, k := range sortedValKeys(h.vals) {
+		d.AddAttr(dep.AttrKey(k), "scribbled over")
+	}
+	d.AddAttr(dep.Scope, "scribbled")
+	probe(s.res, "parsed_values_changed_before_reparsing", 1)
 }
 
 // twinText writes the set like the text form does, except that a value of
